@@ -245,6 +245,22 @@ m("C13-benign-signal-end-local", PUB, "        let signal: Vec<u8> = serialized[
 m("C09-benign-update-slice", HASH, "    hasher.update(signal);\n    hasher.finalize(&mut hash);", "    hasher.update(&signal[..]);\n    hasher.finalize(&mut hash);", "C09")
 m("C08-benign-opt-end-inline", OMT, "        let end = start + leaves_vec.len();", "        let n = leaves_vec.len();\n        let end = start + n;", "C08")
 
+# ---- behaviour-preserving refactors, third batch
+m("C09-benign-sbox-full-rounds-not", PH, "        if (i < n_rounds_f / 2) || (i >= n_rounds_f / 2 + n_rounds_p) {", "        let half = n_rounds_f / 2;\n        if (i < half) || (i >= half + n_rounds_p) {", "C09")
+m("C09-benign-mix-iter-zip", PH, "            for j in 0..state.len() {\n                acc += row[j] * state[j];\n            }", "            for (j, s) in state.iter().enumerate() {\n                acc += row[j] * *s;\n            }", "C09")
+m("C09-benign-ark-index-loop", PH, "        state.iter_mut().enumerate().for_each(|(i, elem)| {\n            *elem += c[it + i];\n        });", "        for i in 0..state.len() {\n            state[i] += c[it + i];\n        }", "C09")
+m("C14-benign-seeded-keygen-inline", PROTO, "    let identity_secret_hash = Fr::rand(&mut rng);\n    let id_commitment = poseidon_hash(&[identity_secret_hash]);\n    (identity_secret_hash, id_commitment)\n}\n\n// Generates a tuple (identity_trapdoor, identity_nullifier, identity_secret_hash, id_commitment) where\n// identity_trapdoor and identity_nullifier are generated deterministically", "    let secret = Fr::rand(&mut rng);\n    let commitment = poseidon_hash(&[secret]);\n    (secret, commitment)\n}\n\n// Generates a tuple (identity_trapdoor, identity_nullifier, identity_secret_hash, id_commitment) where\n// identity_trapdoor and identity_nullifier are generated deterministically", "C14")
+m("C10-benign-vec-u8-reader-slice-var", UT, "    let res = input[8..8 + len].to_vec();\n    read += res.len();\n\n    Ok((res, read))", "    let body = &input[8..8 + len];\n    let res = body.to_vec();\n    read += res.len();\n\n    Ok((res, read))", "C10")
+m("C12-benign-vec-u8-reader-slice-var", UT, "    let res = input[8..8 + len].to_vec();\n    read += res.len();\n\n    Ok((res, read))", "    let body = &input[8..8 + len];\n    let res = body.to_vec();\n    read += res.len();\n\n    Ok((res, read))", "C12")
+m("C13-benign-vec-u8-reader-slice-var", UT, "    let res = input[8..8 + len].to_vec();\n    read += res.len();\n\n    Ok((res, read))", "    let body = &input[8..8 + len];\n    let res = body.to_vec();\n    read += res.len();\n\n    Ok((res, read))", "C13")
+m("C16-benign-delete-let", PMA, "        self.tree\n            .delete(index)\n            .map_err(|e| Report::msg(e.to_string()))?;\n        self.cached_leaves_indices[index] = 0;\n        Ok(())", "        let deleted = self.tree.delete(index);\n        deleted.map_err(|e| Report::msg(e.to_string()))?;\n        self.cached_leaves_indices[index] = 0;\n        Ok(())", "C16")
+m("C06-benign-pm-delete-let", PMA, "        self.tree\n            .delete(index)\n            .map_err(|e| Report::msg(e.to_string()))?;\n        self.cached_leaves_indices[index] = 0;\n        Ok(())", "        let deleted = self.tree.delete(index);\n        deleted.map_err(|e| Report::msg(e.to_string()))?;\n        self.cached_leaves_indices[index] = 0;\n        Ok(())", "C06")
+m("C07-benign-get-proof-let", PUB, "        let merkle_proof = self.tree.proof(index)?;", "        let lookup = self.tree.proof(index);\n        let merkle_proof = lookup?;", "C07")
+m("C20-benign-magic-check-ne", STO, "    if !magic.eq(WITNESSCALC_GRAPH_MAGIC) {", "    if magic != *WITNESSCALC_GRAPH_MAGIC {", "C20")
+m("C05-benign-inputs-collect-two-steps", CALC, "    let inputs: HashMap<String, Vec<U256>> = inputs\n        .into_iter()\n        .map(|(key, value)| (key, value.iter().map(fr_to_u256).collect()))\n        .collect();", "    let converted = inputs\n        .into_iter()\n        .map(|(key, value)| (key, value.iter().map(fr_to_u256).collect()));\n    let inputs: HashMap<String, Vec<U256>> = converted.collect();", "C05")
+m("C01-benign-prove-let-proof", PUB, "        let proof = generate_proof(&self.proving_key, &rln_witness, &self.graph_data)?;\n\n        // Note: we export a serialization of ark-groth16::Proof not semaphore::Proof\n        // This proof is compressed, i.e. 128 bytes long\n        proof.serialize_compressed(&mut output_data)?;\n        output_data.write_all(&serialize_proof_values(&proof_values))?;", "        let proof = generate_proof(&self.proving_key, &rln_witness, &self.graph_data)?;\n\n        // Note: we export a serialization of ark-groth16::Proof not semaphore::Proof\n        // This proof is compressed, i.e. 128 bytes long\n        proof.serialize_compressed(&mut output_data)?;\n        let values = serialize_proof_values(&proof_values);\n        output_data.write_all(&values)?;", "C01")
+m("C04-benign-prove-let-values", PUB, "        let proof = generate_proof(&self.proving_key, &rln_witness, &self.graph_data)?;\n\n        // Note: we export a serialization of ark-groth16::Proof not semaphore::Proof\n        // This proof is compressed, i.e. 128 bytes long\n        proof.serialize_compressed(&mut output_data)?;\n        output_data.write_all(&serialize_proof_values(&proof_values))?;", "        let proof = generate_proof(&self.proving_key, &rln_witness, &self.graph_data)?;\n\n        // Note: we export a serialization of ark-groth16::Proof not semaphore::Proof\n        // This proof is compressed, i.e. 128 bytes long\n        proof.serialize_compressed(&mut output_data)?;\n        let values = serialize_proof_values(&proof_values);\n        output_data.write_all(&values)?;", "C04")
+
 
 def main():
     os.makedirs(OUT, exist_ok=True)
